@@ -228,8 +228,24 @@ def likelihood_checks():
     rng = np.random.default_rng(11)
     for case in pop_cases():
         k, nd, ns = case['kind'], case['nd'], case['ns']
-        if k in ('G-nc', 'LN-nc', 'composed', 'covariate-nc', 'covariate-ln-nc', 'P'):
-            continue                      # (non-centred leaves score eta; point masses have no density)
+        if k == 'P':
+            # a point mass: the sampler only ever returns the pooled vector, so the log-likelihood is finite THERE only -- an
+            # individual that deviates in one dimension (and agrees in the others) is outside the support
+            run_pop_case(case, rng)
+            m, par, covs = _STASH[(k, nd, ns)]
+            with warnings.catch_warnings():
+                warnings.simplefilter('ignore')
+                psi = np.asarray(m.sample(par, n_samples=ns, seed=7), dtype=float).reshape(ns, nd)
+                at = float(m.compute_log_likelihood(np.asarray(par, dtype=float), psi.copy()))
+                off = psi.copy()
+                off[0, 0] += 0.5
+                out = float(m.compute_log_likelihood(np.asarray(par, dtype=float), off))
+            if not np.isfinite(at) or np.isfinite(out):
+                fails.append(('CellLaw', 'point_mass_support', dict(sampler='PopulationModel[P] n_dim=%d n=%d' % (nd, ns),
+                                                                    at_the_sample=at, one_dimension_off=out)))
+            continue
+        if k in ('G-nc', 'LN-nc', 'composed', 'covariate-nc', 'covariate-ln-nc'):
+            continue                      # (non-centred leaves score eta)
         rec = run_pop_case(case, rng)
         m, par, covs = _STASH[(k, nd, ns)]
         kw = {} if covs is None else {'covariates': covs}
